@@ -62,6 +62,25 @@ def gen_data(rng):
     return x, y, {"m": m, "xcls": xc, "ycls": ["smooth", "noisy", "white", "affine"][t]}
 
 
+def fitpack_inconsistent(x, y, s, gy):
+    """Mechanism classifier of the known finding K3.  SciPy's splrep itself is asked for the same fit with full output: if
+    it reports success (ier <= 0) with a residual fp within 0.1 % of s, and the spline it returns - evaluated by SciPy -
+    reproduces the library's values and therefore the same excessive deviation, the defect is FITPACK's (its reported
+    residual does not belong to the coefficients it returns), not the library's.  Anything else is no known finding."""
+    try:
+        from scipy.interpolate import BSpline, splrep
+        with warnings.catch_warnings():
+            warnings.simplefilter("ignore")
+            tck, fp, ier, _msg = splrep(np.asarray(x, dtype=float), np.asarray(y, dtype=float), s=s, full_output=1)
+            direct = np.asarray(BSpline(*tck)(np.asarray(x, dtype=float)), dtype=float)
+        same = direct.shape == np.shape(gy) and bool(np.allclose(direct, np.asarray(gy, dtype=float), rtol=1e-9, atol=0.0))
+        if ier <= 0 and abs(fp - s) <= 0.0011 * s and same:
+            return "K3-fitpack-returns-spline-inconsistent-with-its-reported-residual"
+    except Exception:
+        pass
+    return None
+
+
 def run_case(ctx, kind_, idx):
     from scipy.interpolate import BSpline, splrep
     from traffic_weaver import Weaver
@@ -151,7 +170,8 @@ def run_case(ctx, kind_, idx):
                 ctx.monitor("c16:smooth_residual")
                 ctx.track_worst("residual_over_s", res / s)
                 if not res <= 1.0011 * s + 1e-9 * mag * mag * len(y):
-                    ctx.violation("residual_exceeds_s", cid, {"residual": res, "s": s, "case": info})
+                    ctx.violation("residual_exceeds_s", cid, {"residual": res, "s": s, "case": info},
+                                  mechanism=fitpack_inconsistent(x, y, s, gy))
                     return
                 if meta["ycls"] == "affine":
                     ctx.monitor("c16:affine")
@@ -257,7 +277,8 @@ def run_long_case(ctx, kind_, idx):
                 res = float(np.sum((gy - yy) ** 2))
                 ctx.track_worst("residual_over_s", res / s)
                 if not res <= 1.0011 * s + 1e-9 * mag * mag * m:
-                    ctx.violation("residual_exceeds_s", cid, {"which": what, "residual": res, "s": s, "case": info})
+                    ctx.violation("residual_exceeds_s", cid, {"which": what, "residual": res, "s": s, "case": info},
+                                  mechanism=fitpack_inconsistent(x, yy, s, gy))
                     return
         else:
             for got, yy, what in pairs:
@@ -311,7 +332,8 @@ def run_size_case(ctx, kind_, idx):
                 ctx.violation("smooth_zero_not_identity", cid, {"err": float(np.max(np.abs(gy - y))), "case": info})
                 return
         elif not res <= 1.0011 * s + 1e-9 * 225.0 * m:
-            ctx.violation("residual_exceeds_s", cid, {"residual": res, "s": s, "case": info})
+            ctx.violation("residual_exceeds_s", cid, {"residual": res, "s": s, "case": info},
+                          mechanism=fitpack_inconsistent(x, y, s, gy))
             return
         ctx.nontriv("c16sizes", idx)
     except Exception as e:
